@@ -1,7 +1,7 @@
 (* C11 — Cell expressions denote the Boolean function MCNP assigns to them.
    Only restatements; proofs are in C11/Proofs.v. Spec vocabulary: C11/Spec.v. *)
-From Coq Require Import List NArith ZArith Bool String Lia.
-From T4V Require Import C11.Model C11.Spec C11.Proofs.
+From Coq Require Import List NArith ZArith Bool String Ascii Lia.
+From T4V Require Import Base.Str C11.Model C11.Spec C11.Proofs C11.LexProofs C11.Layout.
 Import ListNotations.
 Close Scope string_scope.
 Open Scope list_scope.
@@ -40,20 +40,56 @@ Theorem C11_pot_complement_lattice_empty : forall cells n c z sub f,
 Proof. exact pot_complement_lattice. Qed.
 Print Assumptions C11_pot_complement_lattice_empty.
 
-(* parsing: every admissible MCNP expression, written with MCNP's precedence
-   (blank binds tighter than ':', parentheses only where needed, #( ) and #n),
-   is accepted and yields GeomSemantics' tree ... *)
-Theorem C11_parse_print : forall e : mexpr, admissible e = true ->
-  exists a, parse_tokens (toks 0 e) = Ok a /\ sem e = Ok a.
-Proof. exact parse_print. Qed.
+(* ---- parsing ---- *)
+(* token level: the canonical token sequence of every admissible expression
+   (MCNP's precedence: blank binds tighter than ':', parentheses only where
+   needed, #( ) and #n) is accepted and yields GeomSemantics' tree ... *)
+Theorem C11_parse_print_tokens : forall e : mexpr, admissible e = true ->
+  exists a, parse_tokens (toks 0 e) = Ok a /\ sem e = Ok a /\
+            forall cd sg, aden cd sg a = mden cd sg e.
+Proof.
+  intros e H. destruct (parse_print e H) as (a & Ep & Es). exists a. repeat split; auto.
+  destruct (parse_print_den e H) as (a' & Ep' & D). rewrite Ep in Ep'. now injection Ep' as <-.
+Qed.
+Print Assumptions C11_parse_print_tokens.
+
+(* the layout lemma: the lexer reads EVERY admissible writing of a token
+   sequence back to that sequence. A writing fixes, per token, the number of
+   blanks in front of it (and at the end of the text), the spelling of numbers
+   (any digit string, leading zeros included), an optional '+', the blanks
+   between '#' and what follows; the only constraints ([wf_written]) are the
+   blanks MCNP itself needs: between two literals, and between #n and an
+   unsigned literal *)
+Theorem C11_lex_render : forall (ws : written) (trail : nat), wf_written ws = true ->
+  tokens_of (render ws trail) = tokens_written ws.
+Proof. exact tokens_of_render. Qed.
+Print Assumptions C11_lex_render.
+
+(* string level, the canonical writing: decimal numbers, one blank between
+   tokens. For every admissible expression (one-digit facets) the text is
+   accepted and the tree denotes the Boolean function MCNP assigns to the
+   expression, for every sense assignment and every meaning of the referenced
+   cells *)
+Theorem C11_parse_print_canonical : forall e : mexpr,
+  admissible e = true -> facets_ok e = true ->
+  exists a, get_ast (print e) = Ok a /\ sem e = Ok a /\
+            forall cd sg, aden cd sg a = mden cd sg e.
+Proof. exact parse_print_canonical. Qed.
+Print Assumptions C11_parse_print_canonical.
+
+(* string level, every layout of the family *)
+Theorem C11_parse_print : forall (e : mexpr) (ws : written) (trail : nat),
+  admissible e = true -> wf_written ws = true -> tokens_written ws = toks 0 e ->
+  exists a, get_ast (render ws trail) = Ok a /\ sem e = Ok a /\
+            forall cd sg, aden cd sg a = mden cd sg e.
+Proof. exact parse_print_layout. Qed.
 Print Assumptions C11_parse_print.
 
-(* ... which denotes the Boolean function MCNP assigns to the expression, for
-   every sense assignment and every meaning of the referenced cells *)
-Theorem C11_parse_print_den : forall e : mexpr, admissible e = true ->
-  exists a, parse_tokens (toks 0 e) = Ok a /\ forall cd sg, aden cd sg a = mden cd sg e.
-Proof. exact parse_print_den. Qed.
-Print Assumptions C11_parse_print_den.
+(* the family is inhabited for every expression *)
+Theorem C11_layout_exists : forall e : mexpr, facets_ok e = true ->
+  exists ws, wf_written ws = true /\ tokens_written ws = toks 0 e.
+Proof. exact layout_exists. Qed.
+Print Assumptions C11_layout_exists.
 
 (* [admissible] excludes exactly two classes of well-formed MCNP expressions
    that the code rejects (genuine defects, known findings): *)
@@ -75,6 +111,17 @@ Example C11_example :
   let e := MOr (MAnd (MNot (MOr (MLit 1 None) (MLit (-2) (Some 3%N)))) (MNotCell 5)) (MLit 4 None) in
   admissible e = true /\ tokens_of "#(1:-2.3) #5:4"%string = toks 0 e /\
   get_ast "#( 1 : -2.3 )#5 : 4"%string = sem e.
+Proof. cbv zeta. repeat split; vm_compute; reflexivity. Qed.
+
+(* a non-canonical writing of the same expression inside the layout family:
+   "  #  (+01:-2.3)#005  :4 " *)
+Example C11_example_layout :
+  let e := MOr (MAnd (MNot (MOr (MLit 1 None) (MLit (-2) (Some 3%N)))) (MNotCell 5)) (MLit 4 None) in
+  let ws := [(2, WHashP 2); (0, WLit false true "01" None); (0, WColon); (0, WLit true false "2" (Some "3"%char));
+             (0, WRP); (0, WHashN 0 "005"); (2, WColon); (0, WLit false false "4" None)]%string in
+  wf_written ws = true /\ tokens_written ws = toks 0 e /\
+  render ws 1 = "  #  (+01:-2.3)#005  :4 "%string /\
+  print e = "#( 1 : -2.3 ) #5 : 4"%string.
 Proof. cbv zeta. repeat split; vm_compute; reflexivity. Qed.
 
 (* non-vacuity of the complement theorem: a three-cell table *)
